@@ -17,7 +17,7 @@ lane() {
     sed -i "s#/repo/scnr#$L/repo/scnr#" $L/harness/vh/Cargo.toml $L/harness/c14/Cargo.toml
     : > $L/results.tsv
     while read id; do
-        prop=$(python3 -c "import json;print(json.load(open('/verif/seeded/$id/meta.json'))['property'])" 2>/dev/null) || continue
+        prop=${id:0:3}
         git -C $L/repo checkout -q -- . ; git -C $L/repo clean -fdq scnr/src scnr/tests
         if ! git -C $L/repo apply /verif/seeded/$id/patch.diff 2>/dev/null; then echo -e "$id\t$prop\tPATCH-DOES-NOT-APPLY" >> $L/results.tsv; continue; fi
         if ! (cd $L/harness && CARGO_NET_OFFLINE=true cargo build --release --offline -q 2>$L/build.err); then
